@@ -8,6 +8,7 @@ mod e5;
 mod c14;
 mod c15;
 mod c16;
+mod c17;
 mod c18;
 mod c19;
 mod checks_e5;
@@ -56,6 +57,21 @@ fn main() {
                 "C09" => checks_e1::run("C09", &tier, seed),
                 "C12" => e6::run(&tier, seed),
                 "C13" => checks_e4::run("C13", &tier, seed),
+                "C17" => checks_e5::run(
+                    checks_e5::Plan {
+                        prop: "C17",
+                        level: "exploration",
+                        rule: "histories of 10-21 events over handler names {h1,h2}, generator names {g1,g2}, command names {c1,c2} reused across 3 contexts: register / replace / unregister / failing trigger / invalid register, spawn / spawn without content / spawn for a running name, define / redefine / invalid define / call; then 1-2 restarts of the real serve process (SIGKILL 70 %, clean 30 %); before and after each restart one probe per context (a trigger, a call per command name, a 1.5 s window for generator starts) and the sets of answering (context, name, id) must be equal; no frame written after the restart may answer a pre-restart trigger or call; non-trivial = case in which something answered; distinct by event sequence",
+                        quick: 32,
+                        thorough: 300,
+                        par: 16,
+                        assumptions: vec!["the oracle is the differential across the restart (plus the absence of re-executed historical triggers); handlers that resume from history are not generated", "generator activity is observed in a 1.5 s window (1 s respawn delay)"],
+                        required: vec!["restarts", "probe_answers_compared"],
+                    },
+                    &tier,
+                    seed,
+                    |s, _| c17::run_case(s),
+                ),
                 "C18" => checks_e5::run(
                     checks_e5::Plan {
                         prop: "C18",
@@ -65,7 +81,7 @@ fn main() {
                         thorough: 120,
                         par: 16,
                         assumptions: vec!["only string-producing expressions (the property's quantifier)", "duplex input is a byte stream without framing: tokens are newline-terminated and the oracle is per line", "same-name sends in other contexts are not generated (the statement does not say which way they go)"],
-                        required: vec!["lifecycles_checked", "duplex_tokens_checked", "refused_spawns_checked"],
+                        required: vec!["lifecycles_checked", "duplex_tokens_checked", "refused_spawns_checked", "duplex_second_lifecycles"],
                     },
                     &tier,
                     seed,
@@ -80,7 +96,7 @@ fn main() {
                         thorough: 600,
                         par: 12,
                         assumptions: vec!["a definition is in force once the serve loop has processed it: the driver waits for quiescence after each define before calling", "for failures inside a lazy stream only 'exactly one terminal event, nothing after it' is asserted"],
-                        required: vec!["calls_checked", "overlapping_call_bursts"],
+                        required: vec!["calls_checked", "overlapping_call_bursts", "identical_redefinitions"],
                     },
                     &tier,
                     seed,
